@@ -38,6 +38,8 @@ enum V {
         V_NULL_AUTH_IV,
         V_PON_PLI,
         V_PON_DST_NOT_INPLACE,
+        V_NULL_SGL_CTX,
+        V_SGL_STATE,
         V_COUNT
 };
 
@@ -47,7 +49,7 @@ const char *names[V_COUNT] = { "none", "null_src", "null_dst", "null_iv", "null_
                                "null_auth_key1", "null_auth_key2", "null_auth_key3", "null_aad", "ccm_aad_len",
                                "aead_cipher_with_other_hash", "aead_hash_with_other_cipher", "docsis_chain_order",
                                "ccm_len_mismatch", "ccm_offset_mismatch", "null_next_iv", "null_auth_iv", "pon_pli",
-                               "pon_dst_not_inplace" };
+                               "pon_dst_not_inplace", "null_sgl_ctx", "sgl_state" };
 
 bool
 cipher_block_mode(int c)
@@ -132,6 +134,32 @@ viol_applies(int v, const JobSpec &s)
         const int c = s.cipher, h = s.hash;
         const bool aead_c = aead_hash_for(c) != 0;
         uint64_t tmp;
+        if (c == IMB_CIPHER_GCM_SGL || c == IMB_CIPHER_CHACHA20_POLY1305_SGL) {
+                // scatter-gather jobs: the constraints depend on the stream state the job carries. GCM checks the tag only
+                // where one is produced (COMPLETE, ALL) and the AAD only where it is consumed (INIT, ALL); ChaCha20-Poly1305
+                // checks both in every state.
+                const bool gcm = c == IMB_CIPHER_GCM_SGL;
+                const int st = s.sgl_state;
+                switch (v) {
+                case V_NULL_SRC:
+                case V_NULL_DST: return s.c_len != 0;
+                case V_NULL_IV:
+                case V_NULL_KEY:
+                case V_KEY_LEN:
+                case V_IV_LEN:
+                case V_CIPHER_MODE:
+                case V_HASH_ALG:
+                case V_DIRECTION:
+                case V_AEAD_CIPHER_WITH_OTHER_HASH:
+                case V_AEAD_HASH_WITH_OTHER_CIPHER:
+                case V_NULL_SGL_CTX:
+                case V_SGL_STATE: return true;
+                case V_NULL_TAG:
+                case V_TAG_LEN: return !gcm || st == IMB_SGL_COMPLETE || st == IMB_SGL_ALL;
+                case V_NULL_AAD: return s.aad_len > 0 && (!gcm || st == IMB_SGL_INIT || st == IMB_SGL_ALL);
+                default: return false;
+                }
+        }
         switch (v) {
         case V_NULL_SRC:
                 if (c == IMB_CIPHER_NULL)
@@ -202,6 +230,8 @@ viol_applies(int v, const JobSpec &s)
                        h == IMB_AUTH_SNOW3G_UIA2_BITLEN || h == IMB_AUTH_GHASH;
         case V_PON_PLI: return c == IMB_CIPHER_PON_AES_CNTR && s.c_len >= 8;
         case V_PON_DST_NOT_INPLACE: return c == IMB_CIPHER_PON_AES_CNTR;
+        case V_NULL_SGL_CTX:
+        case V_SGL_STATE: return false; // scatter-gather suites only (handled above)
         }
         return false;
 }
@@ -213,12 +243,39 @@ viol_apply(int v, const JobSpec &s, IMB_JOB *j, std::vector<int> &e)
         uint64_t big = 0;
         switch (v) {
         case V_NULL_SRC:
+                if ((c == IMB_CIPHER_GCM_SGL || c == IMB_CIPHER_CHACHA20_POLY1305_SGL) && s.sgl_state == IMB_SGL_ALL) {
+                        // the segment list is the source: no list at all, or one non-empty segment without an input pointer
+                        struct IMB_SGL_IOV *iov = (struct IMB_SGL_IOV *) (uintptr_t) j->sgl_io_segs;
+                        std::vector<uint64_t> ne;
+                        for (uint64_t i = 0; i < j->num_sgl_io_segs; i++)
+                                if (iov[i].len)
+                                        ne.push_back(i);
+                        if ((s.seed & 3) == 0 || ne.empty())
+                                j->sgl_io_segs = nullptr;
+                        else
+                                iov[ne[(s.seed >> 2) % ne.size()]].in = nullptr;
+                        e = { IMB_ERR_JOB_NULL_SRC };
+                        break;
+                }
                 j->src = nullptr;
                 e = { IMB_ERR_JOB_NULL_SRC };
                 if (c == IMB_CIPHER_PON_AES_CNTR)
                         e.push_back(EINVAL);
                 break;
         case V_NULL_DST:
+                if ((c == IMB_CIPHER_GCM_SGL || c == IMB_CIPHER_CHACHA20_POLY1305_SGL) && s.sgl_state == IMB_SGL_ALL) {
+                        struct IMB_SGL_IOV *iov = (struct IMB_SGL_IOV *) (uintptr_t) j->sgl_io_segs;
+                        std::vector<uint64_t> ne;
+                        for (uint64_t i = 0; i < j->num_sgl_io_segs; i++)
+                                if (iov[i].len)
+                                        ne.push_back(i);
+                        if (!ne.empty())
+                                iov[ne[(s.seed >> 2) % ne.size()]].out = nullptr;
+                        else
+                                j->sgl_io_segs = nullptr;
+                        e = { ne.empty() ? IMB_ERR_JOB_NULL_SRC : IMB_ERR_JOB_NULL_DST };
+                        break;
+                }
                 j->dst = nullptr;
                 e = { IMB_ERR_JOB_NULL_DST };
                 if (c == IMB_CIPHER_PON_AES_CNTR)
@@ -269,7 +326,7 @@ viol_apply(int v, const JobSpec &s, IMB_JOB *j, std::vector<int> &e)
         case V_IV_LEN: {
                 uint64_t l = j->iv_len_in_bytes;
                 uint64_t nl = (s.seed & 1) ? l + 1 : (l ? l - 1 : 5);
-                if (c == IMB_CIPHER_GCM)
+                if (c == IMB_CIPHER_GCM || c == IMB_CIPHER_GCM_SGL)
                         nl = 0;
                 if (c == IMB_CIPHER_CCM)
                         nl = (s.seed & 1) ? 14 : 6;
@@ -306,7 +363,7 @@ viol_apply(int v, const JobSpec &s, IMB_JOB *j, std::vector<int> &e)
                 case IMB_AUTH_ZUC256_EIA3_BITLEN: nl = 12; break;
                 default:
                         if (hash_is_cmac(h) || hash_is_gmac(h) || h == IMB_AUTH_AES_GMAC || h == IMB_AUTH_GHASH ||
-                            h == IMB_AUTH_SM4_GCM)
+                            h == IMB_AUTH_SM4_GCM || h == IMB_AUTH_GCM_SGL)
                                 nl = (s.seed & 1) ? 0 : 17;
                         else
                                 nl = j->auth_tag_output_len_in_bytes + 1;
@@ -433,6 +490,11 @@ viol_apply(int v, const JobSpec &s, IMB_JOB *j, std::vector<int> &e)
         case V_PON_DST_NOT_INPLACE:
                 j->dst = j->dst + 1;
                 e = { EINVAL };
+                break;
+        case V_NULL_SGL_CTX: j->u.GCM.ctx = nullptr; e = { IMB_ERR_JOB_NULL_SGL_CTX }; break; // same slot for ChaCha20-Poly1305
+        case V_SGL_STATE:
+                j->sgl_state = (IMB_SGL_STATE) (IMB_SGL_ALL + 1 + (int) (s.seed % 5));
+                e = { IMB_ERR_JOB_SGL_STATE };
                 break;
         default: break;
         }
